@@ -184,14 +184,18 @@ def step (st : St) (line : String) : St × String :=
   | "mem" :: rest =>
     -- mem rows <hex>* | huge <hex>* | trees <hex>* | slots <hex>*
     let secs := (" ".intercalate rest).splitOn " | "
-    let get (name : String) : Option (List Nat) :=
+    let get (name : String) : Option (Option (List Nat)) :=
       match secs.find? (fun s => (s.splitOn " ").head? == some name) with
-      | some s => hexList (((s.splitOn " ").drop 1).filter (· ≠ ""))
-      | none => some []
+      | some s => (hexList (((s.splitOn " ").drop 1).filter (· ≠ ""))).map some
+      | none => some none
     match get "rows", get "huge", get "trees", get "slots" with
     | some r, some h, some t, some s =>
-      ({ st with mem := { rows := (r.map (BitVec.ofNat 64)).toArray, huge := h.toArray,
-                          trees := (t.map Tree.unpack).toArray, slots := (s.map LTree.unpack).toArray } }, "ok")
+      -- a section that is not given keeps the current contents (like the harness does)
+      let m := st.mem
+      ({ st with mem := { rows := match r with | some r => (r.map (BitVec.ofNat 64)).toArray | none => m.rows
+                          huge := match h with | some h => h.toArray | none => m.huge
+                          trees := match t with | some t => (t.map Tree.unpack).toArray | none => m.trees
+                          slots := match s with | some s => (s.map LTree.unpack).toArray | none => m.slots } }, "ok")
     | _, _, _, _ => (st, "bad-op")
   | cmd :: args =>
     match st.cfg with
